@@ -411,3 +411,31 @@ QUEUE = Harness(
 )
 
 HARNESSES = [H, H5, QUEUE]
+
+
+# ------------------------------------------------------------------------------ E-reuse (scenario shared with C11)
+from . import c11 as _c11  # noqa: E402
+
+
+@guard
+def reuse_fn(a, tier):
+    res = _c11.reuse_fn(a, tier)
+    if res.ok or not res.sig.endswith(":signal-object-shared"):
+        return res
+    return OK(res.summary, nontrivial=False)  # which signal OBJECT is handed out is C11's clause
+
+
+REUSE = Harness(
+    prop="C10",
+    name="E-reuse",
+    fn=reuse_fn,
+    params=_c11.reuse_params,
+    cube=lambda tier: 0,
+    title="events of an instance that lives at the memory address of a dead one: source stamp and stream isolation",
+    bound_text=_c11.REUSE.bound_text,
+    oracle="the event is stamped with the dispatching (new) instance as source, reaches the stream opened on the new instance's signal and is not "
+    "yielded by a stream that was opened on the dead instance's signal",
+    outside=_c11.REUSE.outside,
+    stubs=STUBS_COMMON,
+)
+HARNESSES.append(REUSE)
